@@ -77,6 +77,9 @@ func (c *FnCtx) specEnv(fr *Frame, st *State) *SpecEnv {
 		}
 	}
 	e.useCells = true
+	for k, v := range fr.loopLets {
+		e.vars[k] = v
+	}
 	if fr.contract != nil {
 		e.bindLets(fr.contract)
 	}
@@ -1136,6 +1139,7 @@ func (e *SpecEnv) applyPred(pd *PredDef, args []ast.Expr) (SV, types.Type) {
 		return v, rt
 	}
 	// uninterpreted
+	c.assertAxiomsFor(pd)
 	var ts []Term
 	for i, b := range vals {
 		tm, _ := e.scalar(b.v, b.t)
@@ -1236,5 +1240,64 @@ func init() {
 			e.fail("truncu64 needs a float in fp mode")
 		}
 		return Sc{Term{fmt.Sprintf("((_ fp.to_ubv 64) RTZ %s)", tm.S), SBV(64)}}, types.Typ[types.Uint64]
+	}
+}
+
+// assertAxiomsFor adds (once per VC) the axioms that mention an uninterpreted spec function.
+func (c *FnCtx) assertAxiomsFor(pd *PredDef) {
+	if c.axiomsDone == nil {
+		c.axiomsDone = map[*AxiomDef]bool{}
+	}
+	if c.vc.quant > 0 {
+		// inside a quantifier body: postpone until we are back at top level
+		c.pendingAxioms = append(c.pendingAxioms, pd)
+		return
+	}
+	defer func() {
+		for len(c.pendingAxioms) > 0 && c.vc.quant == 0 {
+			p := c.pendingAxioms[0]
+			c.pendingAxioms = c.pendingAxioms[1:]
+			c.assertAxiomsFor(p)
+		}
+	}()
+	for _, ax := range c.eng.cs.Axioms {
+		if ax.Pkg != pd.Pkg || c.axiomsDone[ax] || !strings.Contains(ax.Text, pd.Name+"(") {
+			continue
+		}
+		c.axiomsDone[ax] = true
+		c.trusted["axiom(assumed): "+ax.Pkg+" ["+ax.Label+"] "+ax.Text] = true
+		pkg := c.eng.typesPkg(ax.Pkg)
+		env := &SpecEnv{c: c, st: c.initial, old: c.initial, vars: map[string]bound{}, pkg: pkg}
+		var binders []string
+		c.vc.quant++
+		c.vc.noName++
+		for _, v := range ax.Vars {
+			t := c.eng.specType(pkg, v.Type)
+			c.vc.qn++
+			name := fmt.Sprintf("%s!q%d", v.Name, c.vc.qn)
+			srt := c.specSort(t)
+			env.vars[v.Name] = bound{Sc{Term{name, srt}}, t}
+			binders = append(binders, fmt.Sprintf("(%s %s)", name, srt))
+		}
+		var body Term
+		func() {
+			defer func() {
+				if r := recover(); r != nil {
+					if se, ok := r.(specError); ok {
+						c.eng.errorf("axiom [%s]: %s", ax.Label, se.msg)
+						body = TTrue
+						return
+					}
+					panic(r)
+				}
+			}()
+			body = env.evalBool(ax.Expr)
+		}()
+		c.vc.noName--
+		c.vc.quant--
+		if len(binders) > 0 {
+			body = Term{"(forall (" + strings.Join(binders, " ") + ") " + body.S + ")", SBool}
+		}
+		c.vc.Assert(body)
 	}
 }
